@@ -6,6 +6,11 @@ ALL = ["C%02d" % i for i in range(1, 21)]
 
 # id -> (level category, technique, level text, level note, design ref, engine)
 CHECKS = {
+    "C01": ("exploration",
+            "bounded exhaustive input x sink enumeration on compiled templates vs reference HTML5 tokenizer",
+            "Every string up to 3 (quick) / 4 (thorough) symbols over a 22-symbol HTML-adversarial alphabet (markup metacharacters, both quotes, NUL/CR/LF/TAB, invalid UTF-8 bytes), entity- and tag-shaped strings, every Unicode scalar value and invalid UTF-8 byte (pairs in thorough) as singletons, through 41 dynamic HTML sinks compiled at check time with the current generator (text in 12 surroundings incl. RCDATA, string and (string,error) attributes, conditional attributes, 9 class container forms, style result, href/action after URL typing, 5 spread forms, JSON script id/type/nonce, script/onclick/JSON nonce from context). The output is tokenized by the reference HTML5 tokenizer: token skeleton equal to the benign render, the slot decodes to exactly the string; x/net/html must agree on the skeleton.",
+            "Trusts ref/htmltok (WHATWG tokenizer states, cross-checked against x/net/html on 579k inputs); tokenizer-level, no tree construction; spread attribute names are author-chosen.",
+            "4.1", "enum+tgen"),
     "C04": ("exploration",
             "bounded exhaustive input enumeration vs WHATWG scheme extractor + compile-time type gate",
             "Every token sequence up to 4 (quick) / 5 (thorough) over a 30-token URL-adversarial alphabet (scheme names in both cases, ':', '/', '\\', '?', '#', %3a, character references, TAB/LF/CR/space/NUL/0x01, U+017F, U+212A), every character string up to 5/6 over 12 characters and every one-token edit of 19 known XSS vectors goes through templ.URL; strings up to 3/4 tokens also through the compiled href/action sinks, re-read with the reference HTML tokenizer. A type gate compiles templates with plain-string href/action (any attribute-name case) and requires the build to fail.",
